@@ -71,3 +71,11 @@ def judge_parallel(ctx, imports, fn, terms, shard_size=120, jobs=12, timeout=900
             return None
         out += v
     return out
+
+
+def fuel_of(budget, status):
+    """fuel for Base.Sched.run that mirrors harness/vsched.h exactly: vsched looks at 'all finished' and 'nobody runnable' BEFORE the step
+    budget, run looks at the fuel first.  A run that ended 'done'/'deadlock' may have used exactly `budget` steps: one extra unit of fuel
+    lets the model reach the same verdict (it takes no further step: finished / no candidate).  A run that ended by budget took exactly
+    `budget` steps and the model must stop there too."""
+    return budget if status == 2 else budget + 1
